@@ -147,15 +147,22 @@ def execute_seq(p, steps):
         cvec = c["DEV0"]["TGT"]
         dvec = DM.live_vector(w.devices[0], specs[0]["groups"][0], specs[0]["groups"][0]["vectors"][0])
         before_other = snapshot(w)
+        peer = None
         for op, el, v in steps:
             if op == "cwrite":
                 cvec[el].value = v
                 cvec.submit()
+            elif op == "peer-raw":
+                # another connection sends the property a request (raw bytes; typically one the device must refuse)
+                if peer is None:
+                    peer = w.new_link("peer")
+                    w.settle()
+                peer.client_ep.writer.write(v.encode("utf-8"))
             else:
                 getattr(dvec, el.lower()).value = v
             w.settle()
         after = snapshot(w)
-        return dict(values=after[0]["TGT"], others_same=all(a[vn] == b[vn] for a, b in zip(after, before_other) for vn in a if not (a is after[0] and vn == "TGT")), view={en: elval(cvec[en]) for en in cvec.list_elements()}, errors=[e.get("message") for e in w.loop.collect_errors()])
+        return dict(fmt={e["name"]: e.get("format", "%f") for e in specs[0]["groups"][0]["vectors"][0]["elements"]}, values=after[0]["TGT"], others_same=all(a[vn] == b[vn] for a, b in zip(after, before_other) for vn in a if not (a is after[0] and vn == "TGT")), view={en: elval(cvec[en]) for en in cvec.list_elements()}, errors=[e.get("message") for e in w.loop.collect_errors()])
     finally:
         w.close()
 
@@ -172,6 +179,56 @@ def seq_cases(variant):
         # selecting B, then C: re-sending the earlier B=On after C=On would select B again
         return [[("cwrite", "C", "On"), ("cwrite", "B", "On")], [("cwrite", "B", "On"), ("cwrite", "C", "On")]], None
     return [], None
+
+
+REFUSED = {
+    # requests a device of that kind cannot apply (as a whole or for one member), sent by ANOTHER connection earlier on
+    "number": ['<oneNumber name="B"></oneNumber>', '<oneNumber name="B">abc</oneNumber>', '<oneNumber name="B">1%s</oneNumber>' % ("0" * 400), '<oneNumber name="A">1</oneNumber><oneNumber name="B"></oneNumber>', '<oneNumber name="B">1:2:3:4</oneNumber>'],
+    "switch": ['<oneSwitch name="B">Maybe</oneSwitch>', '<oneSwitch name="B"></oneSwitch>', '<oneSwitch name="A">On</oneSwitch><oneSwitch name="B">on</oneSwitch>'],
+    "text": ['<oneText>no name</oneText>', '<oneNumber name="A">1</oneNumber>'],
+}
+
+
+def refused_histories(variant):
+    """[(steps, written element, value)]: 1..3 refused requests of a peer, then an ordinary write of the client"""
+    kind = variant.split("-")[0]
+    tag = {"number": "Number", "switch": "Switch", "text": "Text"}.get(kind)
+    if tag is None:
+        return []
+    out = []
+    val = {"number": "5.5", "switch": "On", "text": "after"}[kind]
+    el = "C" if kind == "switch" else "A"
+    for body in REFUSED[kind]:
+        raw = '<new%sVector device="DEV0" name="TGT">%s</new%sVector>' % (tag, body, tag)
+        for times in (1, 3):
+            out.append(([("peer-raw", None, raw)] * times + [("cwrite", el, val)], el, val))
+    return out
+
+
+def judge_refused(p0, hist):
+    steps, el, val = hist
+    variant = p0["variant"]
+    kind = variant.split("-")[0]
+    o = execute_seq(p0, steps)
+    d = "kind=%s,after-refused-request" % variant
+    f = []
+    got = o["values"].get(el)
+    want = float(N.denotes(val)) if kind == "number" else val
+    okd = abs(got - want) <= 1e-9 if kind == "number" and isinstance(got, (int, float)) else got == want
+    if not okd:
+        f.append(("target-value", d, "history %r: driver has %s=%r, expected %r" % (_sh(steps), el, got, want)))
+    else:
+        cv = o["view"].get(el)
+        okc = DM.number_matches(cv, want, o["fmt"][el]) if kind == "number" else cv == want
+        if not okc:
+            f.append(("client-view-stale", d, "history %r: client shows %s=%r, driver has %r" % (_sh(steps), el, cv, got)))
+    if not o["others_same"]:
+        f.append(("other-property-changed", d, "history %r changed another property" % (_sh(steps),)))
+    return f
+
+
+def _sh(steps):
+    return [(a, b, c if len(str(c)) < 90 else str(c)[:60] + "...") for a, b, c in steps]
 
 
 def back_to_back(p0):
@@ -396,6 +453,12 @@ def run_shard(shard):
             record(p0, (0, "TGT"), steps, ("history", si), judge_seq(p0, si))
         res["executions"] += 1
         record(p0, (0, "TGT"), [("back-to-back",)], ("back-to-back", 0), back_to_back(p0))
+        if perm == "rw":
+            for hi, hist in enumerate(refused_histories(variant)):
+                res["executions"] += 1
+                res["transitions"] += len(hist[0])
+                res["counters"]["refused_histories"] = res["counters"].get("refused_histories", 0) + 1
+                record(p0, (0, "TGT"), [("refused-history", hi)], ("refused-history", hi), judge_refused(p0, hist))
     except HandshakeFailed as e:
         record(p0, (0, "TGT"), [], "whole", [("handshake-failed", "kind=%s" % variant, str(e))])
     res["states"] = res["executions"]
@@ -429,6 +492,8 @@ def replay(rep):
     p = rep["p"]
     if isinstance(rep.get("mode"), list) and rep["mode"][0] == "back-to-back":
         return [{"clause": c, "disc": d, "what": w} for c, d, w in back_to_back(p)]
+    if isinstance(rep.get("mode"), list) and rep["mode"][0] == "refused-history":
+        return [{"clause": c, "disc": d, "what": w} for c, d, w in judge_refused(p, refused_histories(p["variant"])[rep["mode"][1]])]
     if isinstance(rep.get("mode"), list) and rep["mode"][0] == "history":
         return [{"clause": c, "disc": d, "what": w} for c, d, w in judge_seq(p, rep["mode"][1])]
     assignment = [(n, _t(v) if isinstance(v, list) else v) for n, v in rep["assignment"]]
